@@ -97,7 +97,15 @@ NEG_CONTROLS = [("OffByOne", "ImplEqualsEd"), ("AcceptUnterminated", "CorruptRai
 # file content per DESIGN D7: anything but a line that is exactly "."
 POOL = ["..", ".x", "1d", "2,3c", "0a", "", "é中 ü", " .", ". ", "a", "foo bar", "\t", "1", ",", "d",
         "x.", "...", "0", "Package: x", "12,13d", ".\t", "#", "c", "1,2", "3a ", " 1d", "1D", "٣d", "-", ".a", "$"]
-BYTES_EXTRA = [b"\xff\xfe", b"caf\xe9", b"\x80."]
+# A line is whatever ends in "\\n": characters that Python's str.splitlines (but not the line format,
+# and not bytes.splitlines) treats as line boundaries are ordinary content -- in the middle of a
+# line, at its start, right before the final newline, and next to a dot (look-alikes of the
+# terminator).  The UTF-8 twins are used for bytes.  Only ".\\r" is left out (a CR right before the
+# newline of a dot line is the CRLF spelling of the terminator: unspecified, run in unspecified_zone).
+BOUNDARY_CHARS = ["\x0b", "\x0c", "\x1c", "\x1d", "\x1e", "\x85", "\u2028", "\u2029", "\r"]
+POOL += [f % c for c in BOUNDARY_CHARS for f in ("a%sb", "%sx", "x%s", "%s.", ".%s", "%s")
+         if (f % c) != ".\r"]
+BYTES_EXTRA = [b"\xff\xfe", b"caf\xe9", b"\x80.", b"a\x85b", b".\x85", b"\x85."]
 CANON = ["A", "B", "C", "D", "E", "F", "G", "H", "I", "J"]
 UNKNOWN_LETTERS = ["x", "b", "o", "z", "A", "D", "C", "?", "é"]
 GARBAGE_AFTER = ["x", " foo", "1", ".", "a", "!", ",2", "d"]
@@ -860,6 +868,7 @@ def unspecified_zone(ctx):
             "print-suffix": ["1dp"], "relative": ["-1d"], "plus": ["+1d"], "ascending": ["1d", "3d"],
             "same-address-a": ["1a", "A", ".", "1a", "B", "."], "overlap": ["2,3d", "3d"],
             "number-2^31": ["2147483648d"], "number-2^32": ["1,4294967296d"], "number-2^64-a": ["18446744073709551616a", "A", "."],
+            "dot-cr-text": ["1a", ".\r", "."], "crlf-script": ["1a\r", "A\r", ".\r"],
             "number-10^30": ["1" + "0" * 30 + "d"], "leading-zeros": ["003d"], "leading-zeros-range": ["01,00002c", "A", "."],
         }
         for name, sc in sorted(scripts.items()):
@@ -963,7 +972,7 @@ def diff_e_script(ctx, old_lines, new_lines, rev, n):
     os.unlink(pn)
     if p.returncode not in (0, 1) or p.stderr:
         raise core.MachineryError("diff -e failed: rc=%s %r" % (p.returncode, p.stderr[:200]))
-    lines = p.stdout.splitlines(True)
+    lines = [l + b"\n" for l in p.stdout.split(b"\n")[:-1]]     # a line ends in \n and nowhere else
     cmds, i = [], 0
     while i < len(lines):
         m = _DIFF_CMD.match(lines[i].rstrip(b"\n"))
